@@ -424,6 +424,10 @@ def str_of_int(v, width=0, force_sign=False):
         return s.zfill(width) if width else s
     if v.isf:
         raise Unsupported("decimal rendering of a float-typed symbolic value")
+    if width:
+        lo0, hi0 = core.ENG.interval(v.lin, v.c)
+        if lo0 is not None and hi0 is not None and lo0 >= 0 and hi0 < 10 ** width and not force_sign:
+            return SymStr.make(digits_of(v, width))      # fixed width, no fork on the digit count
     neg = bool(v < 0)
     a = -v if neg else v
     n = 1
@@ -432,6 +436,9 @@ def str_of_int(v, width=0, force_sign=False):
         n += 1
         if n > 18:
             raise Unsupported("unbounded decimal rendering")
+    if type(a) is SymInt:
+        # 0 <= a < 10**n was just decided on this path
+        a = core.with_bounds(a, 0 if n == 1 else 10 ** (n - 1), 10 ** n - 1)
     ds = digits_of(a, n) if type(a) is SymInt else list(_str(a))
     pre = ["-"] if neg else (["+"] if force_sign else [])
     pad = max(0, width - _len(ds) - _len(pre))
@@ -444,15 +451,32 @@ _FMT = _re.compile(r"%(?:\((?P<key>[^)]*)\))?(?P<flags>[-+ 0#]*)(?P<width>\d+)?(
 def fmt_percent(fmt, args):
     """`fmt % args` where fmt is a concrete str (or SymStr without symbolic
     '%') and args hold symbolic values"""
+    holes = None
     if type(fmt) is SymStr:
-        if not fmt.concrete():
-            # only literal text may be symbolic: split around it
-            raise Unsupported("symbolic format string")
-        fmt = "".join(fmt.els)
+        # symbolic characters can only be literal text (digits / signs are never '%'
+        # or part of a directive): they are carried through as private-use holes
+        holes = {}
+        txt = []
+        for c in fmt.els:
+            if _issym(c):
+                if not char_not_alpha(c) or bool(c == 37):
+                    raise Unsupported("symbolic character that could be part of a format directive")
+                h = chr(0xE100 + _len(holes))
+                holes[h] = c
+                txt.append(h)
+            else:
+                txt.append(c)
+        fmt = "".join(txt)
     fmt = _str.__str__(fmt) if type(fmt) is not _str else fmt
     out = []
     pos = 0
     idx = 0
+
+    class _Out(list):
+        def extend(self, it):
+            for ch in it:
+                list.append(self, holes.get(ch, ch) if (holes and not _issym(ch)) else ch)
+    out = _Out()
     for m in _FMT.finditer(fmt):
         out.extend(fmt[pos:m.start()])
         pos = m.end()
@@ -651,10 +675,28 @@ class SymRegex:
                 return m
         return None
 
-    def sub(self, repl, s, *a, **k):
-        if self._symbolic(s) or type(repl) is SymStr:
-            raise Unsupported("re.sub on a symbolic string")
-        return self._real.sub(repl, s, *a, **k)
+    def sub(self, repl, s, count=0, **k):
+        if type(repl) is SymStr or isinstance(repl, OpaqueStr):
+            raise Unsupported("re.sub with a symbolic replacement")
+        if not self._symbolic(s):
+            return self._real.sub(repl, s, count, **k)
+        if callable(repl) or "\\" in repl:
+            raise Unsupported("re.sub on a symbolic string with a callable / group-reference replacement")
+        out, pos, n, done = [], 0, _len(s.els), 0
+        while pos <= n:
+            m = self._run(s, pos, anchored=True) if (not count or done < count) else None
+            if m is not None and m.end() > pos:
+                out.extend(repl)
+                pos = m.end()
+                done += 1
+                continue
+            if m is not None and m.end() == pos:
+                out.extend(repl)      # empty match: CPython inserts the replacement and moves on
+                done += 1
+            if pos < n:
+                out.append(s.els[pos])
+            pos += 1
+        return SymStr.make(out)
 
     def split(self, s, *a, **k):
         if self._symbolic(s):
